@@ -109,6 +109,8 @@ def gen_algebra(rng, d, tier):
         a['graded'] = True
     if rng.random() < 0.1:
         a['symbolcls'] = 'sympy'
+    if rng.random() < 0.05:
+        a['simp_func'] = 'ident'
     if rng.random() < 0.5:
         a['wrapper'] = rng.choice(['stub', 'stub', 'ident', 'opaque'])
     if rng.random() < 0.1 and not a.get('name'):
